@@ -1144,6 +1144,9 @@ impl<RW: QueueRW<T>, T> Drop for MultiQueue<RW, T> {
                 }
             }
         }
+        // the values are gone, now the ring itself
+        alloc::deallocate(self.data, self.capacity as usize);
+        alloc::deallocate(self.refs, self.capacity as usize);
     }
 }
 
